@@ -8,7 +8,7 @@
    oracle for temporary names and short reads, every prefix k of the system-call trace (= every
    power-loss point) and every crash choice c (per directory any subset of the un-synced entry
    operations, per un-synced file arbitrary contents). *)
-From SL Require Import FS.Proofs.
+From SL Require Import FS.Proofs FS.Fault FS.ProofsFault.
 Import ListNotations.
 Open Scope nat_scope.
 
@@ -197,6 +197,59 @@ Theorem C13_prefix_confined_dot_refuted :
 Proof. exact prefix_confined_dot_refuted. Qed.
 Print Assumptions C13_prefix_confined_dot_refuted.
 
+(* ---- write faults: write(2) on the temporary file lets only a prefix `pre` through and then
+   fails with e (disk full, quota, RLIMIT_FSIZE, I/O error); FS/Fault.v, the write step of
+   write_file / upload made a parameter (plain_write gives back the original functions) ---- *)
+Theorem C13_write_file_is_with : forall p data perm sfx fd0,
+  write_file p data perm sfx fd0 = write_file_with (plain_write data) p perm sfx fd0.
+Proof. exact write_file_is_with. Qed.
+Print Assumptions C13_write_file_is_with.
+
+Theorem C13_upload_is_gen : forall loc dir key data imm sfx reads fd0,
+  upload_with loc dir key data imm sfx reads fd0 = upload_gen (plain_write data) loc dir key data imm sfx reads fd0.
+Proof. exact upload_is_gen. Qed.
+Print Assumptions C13_upload_is_gen.
+
+(* a WriteFile whose write failed returns an error ... *)
+Theorem C13_write_fault_returns_error : forall s0 p pre e perm sfx f0, wf s0 ->
+  result_of (write_file_fault pre e p perm sfx f0 s0) <> None.
+Proof. exact write_fault_returns_error. Qed.
+Print Assumptions C13_write_fault_returns_error.
+
+(* ... and leaves the destination untouched at every power-loss point and for every reader *)
+Theorem C13_write_fault_untouched : forall s0 p pre e perm sfx f0 k c, wf s0 ->
+  let T := trace_of (write_file_fault pre e p perm sfx f0 s0) in
+  read_path (crash (exec (firstn k T) s0) c) p = read_path (crash s0 c) p.
+Proof. exact write_fault_untouched. Qed.
+Print Assumptions C13_write_fault_untouched.
+
+Theorem C13_write_fault_readers : forall s0 p pre e perm sfx f0 k, wf s0 ->
+  let T := trace_of (write_file_fault pre e p perm sfx f0 s0) in
+  read_path (exec (firstn k T) s0) p = read_path s0 p.
+Proof. exact write_fault_readers. Qed.
+Print Assumptions C13_write_fault_readers.
+
+Theorem C13_write_fault_final : forall s0 p pre e perm sfx f0 c, wf s0 ->
+  let s' := state_of (write_file_fault pre e p perm sfx f0 s0) in
+  read_path s' p = read_path s0 p /\ read_path (crash s' c) p = read_path (crash s0 c) p.
+Proof. exact write_fault_final. Qed.
+Print Assumptions C13_write_fault_final.
+
+Theorem C13_upload_fault_mutable_fails : forall s dir key data pre e sfx reads f0,
+  wf s -> dirs_durable s ->
+  result_of (upload_fault pre e dir key data false sfx reads f0 s) <> UOk.
+Proof. exact upload_fault_mutable_fails. Qed.
+Print Assumptions C13_upload_fault_mutable_fails.
+
+Theorem C13_upload_fault_new_object : forall s dir key name data pre e imm sfx reads f0 err k c,
+  wf s -> localize key = Some name ->
+  walk (dirs s) (parent (dir ++ name)) = WDir -> walk (dirs s) (dir ++ name) = WErr err ->
+  let r := upload_fault pre e dir key data imm sfx reads f0 s in
+  result_of r <> UOk /\
+  read_path (crash (exec (firstn k (trace_of r)) s) c) (dir ++ name) = read_path (crash s c) (dir ++ name).
+Proof. exact upload_fault_new_object. Qed.
+Print Assumptions C13_upload_fault_new_object.
+
 (* ---- the hypotheses are satisfiable and stable ---- *)
 Theorem C13_reachable_wf : forall t cap, wf (exec t (init_fs cap)).
 Proof. exact reachable_wf. Qed.
@@ -228,3 +281,16 @@ Proof.
   destruct st0_ok as [A [B _]]. split; [exact A|]. split; [exact B|].
   vm_compute. repeat split; reflexivity.
 Qed.
+
+Example C13_example_write_fault :
+  let r := write_file_fault (s2b "ne") EINVAL fx_p 420 (s2b "2") 0 fx_s0 in
+  wf fx_s0 /\
+  read_path fx_s0 fx_p = Some (s2b "old") /\
+  result_of r = Some EINVAL /\
+  trace_of r = [SOpenDir fx_dir 0; SCreat fx_tmp 1; SFchmod 1 420; SWrite 1 (s2b "ne"); SClose 1; SUnlink fx_tmp; SClose 0] /\
+  read_path (state_of r) fx_p = Some (s2b "old") /\
+  eget (dview (dirs (state_of r)) fx_dir) (tmp_name (s2b "checkpoint") (s2b "2")) = None /\
+  trace_of (write_file_fault [] EINVAL fx_p 420 (s2b "2") 0 fx_s0) =
+    [SOpenDir fx_dir 0; SCreat fx_tmp 1; SFchmod 1 420; SClose 1; SUnlink fx_tmp; SClose 0] /\
+  read_path (state_of (write_file fx_p (s2b "new") 420 (s2b "2") 0 fx_s0)) fx_p = Some (s2b "new").
+Proof. exact write_fault_example. Qed.
